@@ -187,6 +187,10 @@ type compressedPostingIterator struct {
 
 func newCompressedPostingIterator(b []byte, w ngram) *compressedPostingIterator {
 	d, sz := binary.Uvarint(b)
+	if sz <= 0 {
+		// Truncated or overlong varint: treat the corrupt posting list as empty.
+		return &compressedPostingIterator{_first: math.MaxUint32, what: w}
+	}
 	return &compressedPostingIterator{
 		_first:           uint32(d),
 		blob:             b[sz:],
@@ -212,6 +216,13 @@ func (i *compressedPostingIterator) next(limit uint32) {
 
 	for i._first <= limit && len(i.blob) > 0 {
 		delta, sz := binary.Uvarint(i.blob)
+		if sz <= 0 {
+			// Truncated or overlong varint: end the iteration instead of
+			// looping without progress.
+			i.blob = nil
+			i._first = math.MaxUint32
+			return
+		}
 		i._first += uint32(delta)
 		i.indexBytesLoaded += sz
 		i.blob = i.blob[sz:]
